@@ -383,7 +383,7 @@ def run(tier, seed):
         run_web(s3, backend, combos)
     suites.append(s3)
     from .. import extra
-    return list(suites) + [extra.suite_roles_concurrent(tier, seed), extra.suite_roles_burst(tier, seed), extra.suite_output_validator_context(tier, seed), extra.suite_homeserver_output(tier, seed), extra.suite_two_workers(tier, seed), extra.suite_roles_forged(tier, seed)]
+    return list(suites) + [extra.suite_roles_concurrent(tier, seed), extra.suite_roles_burst(tier, seed), extra.suite_output_validator_context(tier, seed), extra.suite_homeserver_output(tier, seed), extra.suite_two_workers(tier, seed), extra.suite_roles_forged(tier, seed), extra.suite_authz_corners(tier, seed)]
 
 
 def replay(payload):
